@@ -42,6 +42,10 @@ m('c01-loop-filter', 'C01', 'sound/transport.rs',
 m('c01-loop-filter-ge', 'C01', 'sound/transport.rs',
   '.filter(|(loop_start, loop_end)| loop_end > loop_start)', '.filter(|(loop_start, loop_end)| loop_end >= loop_start)',
   'sound::transport::Transport::', 'the filter lets loop_end == loop_start through (the wrap loops hang, seek_to divides by zero)')
+m('c01-backwards-wrap', 'C01', 'sound/transport.rs',
+  '\t\t\tif self.position <= loop_start {\n\t\t\t\t// step forwards by as many whole loop lengths as it takes\n\t\t\t\t// to get past the start of the loop region (which can be\n\t\t\t\t// any distance away from the audio)\n\t\t\t\tlet loop_length = loop_end - loop_start;\n\t\t\t\tlet distance = loop_start - self.position;\n\t\t\t\tself.position += (distance / loop_length + 1) * loop_length;\n\t\t\t}',
+  '\t\t\twhile self.position <= loop_start {\n\t\t\t\tself.position += loop_end - loop_start;\n\t\t\t}',
+  'A.loop|sound::transport::Transport::decrement_position', 'playing backwards wraps one loop length at a time again', reverse_of='played backwards below')
 m('c01-seek-wrap', 'C01', 'sound/transport.rs',
   '\t\t\tif position > self.position {\n\t\t\t\tif position >= loop_end {\n\t\t\t\t\tposition = loop_start + (position - loop_start) % loop_length;\n\t\t\t\t}\n\t\t\t} else if position < loop_start {\n\t\t\t\tlet distance = loop_start - position;\n\t\t\t\tposition = loop_start + (loop_length - distance % loop_length) % loop_length;\n\t\t\t}',
   '\t\t\tif position > self.position {\n\t\t\t\twhile position >= loop_end {\n\t\t\t\t\tposition -= loop_length;\n\t\t\t\t}\n\t\t\t} else {\n\t\t\t\twhile position < loop_start {\n\t\t\t\t\tposition += loop_length;\n\t\t\t\t}\n\t\t\t}',
